@@ -45,6 +45,19 @@ Definition spec_backward_conclusions (s : specification) : theory :=
   map an_formula (filter (fun a => is_spec_role a && dir_backward (an_dir a)) s).
 (* an assumption annotated backward is ignored (warning InconsistentDirectionAnnotation) *)
 
+(* an assumption annotated backward contributes to NEITHER direction (anthem: warning
+   InconsistentDirectionAnnotation "ignored in the forward direction" - it is not a premise of the
+   backward direction either; audit2 B9, finding F19) *)
+Lemma spec_backward_assumption_nothing (a : aformula_annot) (s1 s2 : specification) :
+  an_role a = RAssumption -> an_dir a = DBackward ->
+  spec_stable (s1 ++ a :: s2) = spec_stable (s1 ++ s2) /\
+  spec_forward_premises (s1 ++ a :: s2) = spec_forward_premises (s1 ++ s2) /\
+  spec_backward_conclusions (s1 ++ a :: s2) = spec_backward_conclusions (s1 ++ s2).
+Proof.
+  intros Hr Hd. unfold spec_stable, spec_forward_premises, spec_backward_conclusions, is_assumption, is_spec_role.
+  rewrite !filter_app. cbn [filter]. rewrite Hr, Hd. cbn. rewrite <- !filter_app. auto.
+Qed.
+
 Lemma spec_roles_supported_in s a : spec_roles_supported s = true -> In a s ->
   an_role a = RAssumption \/ an_role a = RSpec.
 Proof.
